@@ -40,6 +40,10 @@ def attribute_pattern(var, fmt, attr, value):
     :param value: requested content of the attribute.
     """
     value = sparql_str(value)
+    if attr == "id":
+        # The id is not exported as an attribute, it is part of the name of the node.
+        return "FILTER (str(?{0}) = \"{1}{2}\") .\n".format(var, odmlns, value)
+
     pred = re.sub(str(odmlns), "odml:", fmt.rdf_map(attr))
     return "?{0} {1} \"{2}\" .\n".format(var, pred, value)
 
